@@ -14,6 +14,9 @@ VERIF = os.path.dirname(os.path.dirname(os.path.abspath(__file__)))
 REPO = os.environ.get("VERIF_REPO", "/repo")
 SRC = os.path.join(REPO, "src")
 CACHE = os.environ.get("VERIF_CACHE", os.path.join(VERIF, ".cache"))
+# where evidence/ and out/ are written; only the seeded-change evaluation (tools/seeded_eval.sh) redirects it so that
+# runs against a scratch tree do not overwrite the evidence of /repo
+OUTROOT = os.environ.get("VERIF_OUTROOT", VERIF)
 GUARD = "LIBCELLML_VERIF"
 XML2_INC = "/root/miniconda/include/libxml2"
 XML2_LIBDIR = "/root/miniconda/lib"
@@ -136,6 +139,49 @@ def run(cmd, timeout=600, mem_gb=None, cwd=None, env=None, stdin=None):
         out, err = p.communicate()
         rc = -9
     return rc, out, err, time.time() - t0
+
+
+def run_portfolio(cmds, timeout=600, mem_gb=None, conclusive=lambda rc, out: rc in (0, 10)):
+    """Run the commands concurrently (same query, different back ends); the first CONCLUSIVE answer wins and the others are
+    killed.  Returns (rc, stdout, stderr, seconds, index of the winner or -1)."""
+    import tempfile
+    t0 = time.time()
+    procs = []
+    for c in cmds:
+        fo, fe = tempfile.TemporaryFile("w+"), tempfile.TemporaryFile("w+")
+        procs.append((subprocess.Popen(c, stdout=fo, stderr=fe, stdin=subprocess.DEVNULL, preexec_fn=_limits(mem_gb), text=True), fo, fe))
+
+    def read(f):
+        f.seek(0)
+        return f.read()
+
+    def kill_all():
+        for p, _fo, _fe in procs:
+            if p.poll() is None:
+                try:
+                    os.killpg(p.pid, 9)
+                except ProcessLookupError:
+                    pass
+        for p, _fo, _fe in procs:
+            p.wait()
+    last = None
+    done = set()
+    while time.time() - t0 < timeout:
+        for k, (p, fo, fe) in enumerate(procs):
+            if k in done or p.poll() is None:
+                continue
+            done.add(k)
+            out, err = read(fo), read(fe)
+            if conclusive(p.returncode, out):
+                kill_all()
+                return p.returncode, out, err, time.time() - t0, k
+            last = (p.returncode, out, err)
+        if len(done) == len(procs):
+            rc, out, err = last
+            return rc, out, err, time.time() - t0, -1
+        time.sleep(0.2)
+    kill_all()
+    return -9, "", "", time.time() - t0, -1
 
 
 def prune_cache(prefix, keep):
